@@ -135,15 +135,18 @@ func (srv *Server) WithTerminateHook(hook TerminateHook) *Server {
 func (srv *Server) Serve() error {
 	srv.logger.Info("Running KMIP server", "bind", srv.listener.Addr())
 	for {
+		// Account for the next connection before accepting it, so that Shutdown's wg.Wait() cannot
+		// slip in between Accept() returning a connection and that connection being registered.
+		srv.wg.Add(1)
 		conn, err := srv.listener.Accept()
 		if err != nil {
+			srv.wg.Done()
 			if errors.Is(err, net.ErrClosed) {
 				return ErrShutdown
 			}
 			//TODO: Return a shutdown error if shutdown has been requested
 			return err
 		}
-		srv.wg.Add(1)
 		go srv.handleConn(conn)
 	}
 }
